@@ -98,8 +98,11 @@
     and a YIELD for a call of a full x puts the callee's handler into       C07_stall_exception_caller
     the retry loop (`C13_retry_*`, C07_retry_*)
 
-  Explicit assumption (hypothesis `JoinFresh` of every `join`): a joining session key names no attached
-  client and no leftover queue.  Session keys are the model's internal names for sessions (the
+  Explicit assumption (hypothesis `JoinFresh` of every `join` of `QReachable`, weakened to `JoinClean` in
+  `CReachable` / `C07_bounded_queue_clean` / `C07_queue_inv_preserved`): a joining session key names no
+  leftover queue of a departed session.  (That it names no attached client is no assumption any more: such a
+  `join` is a no-op of the model, and distinct client keys hold for EVERY history:
+  `Realm.Reachable.clients_wf`.)  Session keys are the model's internal names for sessions (the
   implementation draws fresh random session ids); the harness never reuses one.  Without it the model
   itself violates the bound: see `C07_bound_needs_fresh_join`.
 -/
@@ -125,6 +128,27 @@ theorem C07_bounded_queue {cfg : Config} {r : Realm} (h : QReachable cfg r) :
   obtain ⟨h1, h2, h3, h4⟩ := h.qinv
   exact ⟨h2, h1, h3, h4⟩
 
+/-- The same with the weakest hypothesis on joining keys the model admits (`CReachable`): nothing is asked of
+    a `join` under the key of an attached client or the meta session's — a no-op of the model, session ids
+    are drawn by the router — ; a key that names no attached client must name no leftover queue
+    (`JoinClean`), which holds whenever the key is not that of a departed session whose closure its client
+    has not observed yet (`CReachable.step_not_closed`).  `QReachable` (fresh joining keys) is a special
+    case.  What is left cannot be dropped: `C07_bound_needs_fresh_join`. -/
+theorem C07_bounded_queue_clean {cfg : Config} {r : Realm} (h : CReachable cfg r) :
+    (∀ c ∈ r.clients, r.queueLen c.key ≤ c.cap) ∧
+    (∀ q ∈ r.queues, (∃ c ∈ r.clients, c.key = q.1) ∨ q.1 ∈ r.closedPeers) ∧
+    (r.clients.map (·.key)).Nodup ∧ (∀ k ∈ r.ghosts, k ∈ r.closedPeers) := by
+  obtain ⟨h1, h2, h3, h4⟩ := h.qinv
+  exact ⟨h2, h1, h3, h4⟩
+
+example {cfg : Config} {r : Realm} (h : QReachable cfg r) : CReachable cfg r := h.creachable
+
+/-- one step from any state with the queue invariant: enough that a joining key is not the key of a closed
+    peer whose closure is unobserved -/
+theorem C07_queue_inv_step_not_closed {r : Realm} (h : QueueInv r) (op : Op)
+    (hj : ∀ k l d ro c, op = .join k l d ro c → k ∉ r.closedPeers) : QueueInv (r.step op).2 :=
+  qinv_step' h op (fun k l d ro c e => h.joinClean (hj k l d ro c e))
+
 theorem C07_queue_inv_create {cfg : Config} {r : Realm} (h : Realm.create cfg = some r) : QueueInv r :=
   qinv_create h
 
@@ -144,8 +168,10 @@ example {cfg : Config} {r : Realm} (h : Realm.create cfg = some r) (k : SessKey)
 
 example : (Realm.create {}).isSome = true := by decide +kernel
 
-/-- `QueueInv` is preserved by every function of the realm model (for `stepOp`/`step`: a joining key
-    must be fresh). -/
+/-- `QueueInv` is preserved by every function of the realm model (for `stepOp`/`step`: a joining key that
+    names no attached client must name no leftover queue either, `JoinClean` — implied by the former
+    hypothesis `JoinFresh`, whose other half "the key names no attached client" is not needed any more:
+    such a `join` is a no-op of the model). -/
 theorem C07_queue_inv_preserved {r : Realm} (h : QueueInv r) :
     (∀ s, QueueInv (r.trySend s)) ∧
     (∀ ss, QueueInv (r.deliver ss)) ∧
@@ -164,12 +190,12 @@ theorem C07_queue_inv_preserved {r : Realm} (h : QueueInv r) :
     (∀ k mode, QueueInv (r.leave k mode)) ∧
     (∀ t, QueueInv (r.runTask t)) ∧
     (∀ fuel, QueueInv (drain fuel r)) ∧
-    (∀ op, (∀ k l d ro c, op = .join k l d ro c → JoinFresh r k) → QueueInv (r.stepOp op)) ∧
+    (∀ op, (∀ k l d ro c, op = .join k l d ro c → JoinClean r k) → QueueInv (r.stepOp op)) ∧
     (∀ x, QueueInv (r.retryDue x)) ∧
     (∀ t, QueueInv (r.timerDue t)) ∧
     (∀ fuel target, QueueInv (advance fuel r target)) ∧
     QueueInv r.flush.2 ∧
-    (∀ op, (∀ k l d ro c, op = .join k l d ro c → JoinFresh r k) → QueueInv (r.step op).2) :=
+    (∀ op, (∀ k l d ro c, op = .join k l d ro c → JoinClean r k) → QueueInv (r.step op).2) :=
   ⟨qinv_trySend h, fun ss => qinv_deliver ss h, qinv_applyD h, qinv_setPanic h,
    fun s req opts topic args kw => qinv_handlePublish h s req opts topic args kw,
    fun s req opts topic => qinv_handleSubscribe h s req opts topic,
@@ -180,9 +206,9 @@ theorem C07_queue_inv_preserved {r : Realm} (h : QueueInv r) :
    fun s req opts args kw => qinv_handleYield h s req opts args kw,
    fun _ _ _ _ _ _ => qinv_applyD h _,
    fun s m => qinv_handleMsg h s m, fun k mode => qinv_leave h k mode, fun t => qinv_runTask h t,
-   fun fuel => qinv_drain fuel h, fun op hj => qinv_stepOp h op hj, fun x => qinv_retryDue h x,
+   fun fuel => qinv_drain fuel h, fun op hj => qinv_stepOp' h op hj, fun x => qinv_retryDue h x,
    fun t => qinv_timerDue h t, fun fuel target => qinv_advance fuel target h, qinv_flush h,
-   fun op hj => qinv_step h op hj⟩
+   fun op hj => qinv_step' h op hj⟩
 
 /-- "… and loses the rest" — and nothing but the rest.  For a send to an attached (non-meta) client `c`:
     (1) if its queue is full the send changes NOTHING: the whole realm state is as before;
@@ -295,10 +321,12 @@ example : let r0 : Realm :=
   have h := (C07_inbox_not_lost r0).1 1 _ (.unregister 9 3) (by decide) rfl rfl (by decide)
   exact ⟨by rw [h.1]; rfl, by rw [h.2.1]; rfl⟩
 
-/-- Why `JoinFresh` is needed: in the model a departed stalled session leaves its queue behind until it
-    "resumes"; re-using its key for a new session with a smaller capacity would start that session
-    with more buffered messages than its capacity.  (Keys are never reused by the harness: a model
-    artifact, not a router behaviour.) -/
+/-- Why `JoinClean` (what is left of `JoinFresh`) is needed: in the model a departed stalled session leaves
+    its queue behind until it "resumes" (queues are named by session key); re-using its key for a new
+    session with a smaller capacity would start that session with more buffered messages than its
+    capacity.  The model's `join` refuses only the key of an ATTACHED client and the meta key, so this
+    input is still accepted.  (Keys are never reused by the harness: a model artifact, not a router
+    behaviour — the router gives every session its own peer.) -/
 theorem C07_bound_needs_fresh_join :
     ∃ r : Realm, QueueInv r ∧ ¬ QueueInv (r.stepOp (.join 7 false [] [] 0)) := by
   refine ⟨{ queues := [(7, [.other 0])], closedPeers := [7], ghosts := [7] }, ?_, ?_⟩
@@ -307,7 +335,7 @@ theorem C07_bound_needs_fresh_join :
     · intro k hk; simpa using hk
   · intro h
     have := h.2.1 { key := 7, details := [], roles := [], isLocal := false, cap := 0 } (by
-      rw [stepOp_join]; simp [Realm.addTasks])
+      rw [stepOp_join_fresh _ _ _ _ (by decide) (by intro c hc; cases hc)]; simp [Realm.addTasks])
     revert this
     decide
 
